@@ -468,4 +468,150 @@ pub fn run(cfg: &Cfg, rep: &mut Report) {
       }
     }
   }
+
+  // two-thread free-running part: a real waiter thread blocks on the future /
+  // stream / status while the producer thread emits (true parallelism, seeded jitter)
+  if cfg.only_case.is_none() || cfg.only_case.as_deref().map_or(false, |c| c.starts_with("race")) {
+    let n = cfg.n(3_000, 300_000);
+    let mut rng = Rng::new(cfg.seed ^ 0xC14F);
+    let mut hung = 0;
+    for i in 0..n {
+      let mut r = rng.fork();
+      if !cfg.mine(i) {
+        continue;
+      }
+      let id = format!("race:{}", i);
+      if !cfg.wants(&id) || hung >= 2 {
+        continue;
+      }
+      rep.evaluations += 1;
+      rep.count("two_thread_races", 1);
+      if let Some((kind, locus, detail, was_hang)) = race_case(&mut r) {
+        if was_hang {
+          hung += 1;
+        }
+        rep.violation(&kind, &locus, &id, detail);
+      } else {
+        rep.nontrivial.insert(hash64(&("race", i)));
+      }
+      rep.events += 4;
+    }
+  }
+}
+
+fn jitter(r: &mut Rng) {
+  match r.below(6) {
+    0 => std::thread::yield_now(),
+    1 => std::thread::sleep(Duration::from_micros(r.below(80) as u64)),
+    2 => {
+      for _ in 0..r.below(400) {
+        std::hint::spin_loop()
+      }
+    }
+    _ => {}
+  }
+}
+
+/// (kind, locus, detail, hang?)
+fn race_case(r: &mut Rng) -> Option<(String, String, serde_json::Value, bool)> {
+  use futures::executor::block_on;
+  use futures::StreamExt;
+  use std::sync::mpsc::channel;
+  let conv = [Conv::Future, Conv::Stream, Conv::Status][r.below(3)];
+  let n_items = r.below(4);
+  let error = r.chance(1, 3);
+  let mut subj = SubjectThreads::<V, E>::default();
+  let prev = crate::conc::mode();
+  crate::conc::set_mode(if r.chance(1, 2) { crate::conc::FREE } else { crate::conc::OFF });
+  let items: Vec<V> = (0..n_items).map(|i| V::I(10 + i as i64)).collect();
+  let (tx, rx) = channel::<String>();
+  let name;
+  match conv {
+    Conv::Future => {
+      name = "to_future";
+      let fut = subj.clone().to_future();
+      std::thread::spawn(move || {
+        let res = block_on(fut);
+        let _ = tx.send(match res {
+          Ok(Ok(v)) => format!("value:{}", v.int()),
+          Ok(Err(e)) => format!("error:{}", e),
+          Err(ObservableError::Empty) => "empty".into(),
+          Err(ObservableError::MultipleValues) => "multiple".into(),
+        });
+      });
+    }
+    Conv::Stream => {
+      name = "to_stream";
+      let st = subj.clone().to_stream();
+      std::thread::spawn(move || {
+        let all: Vec<Result<V, E>> = block_on(st.collect::<Vec<_>>());
+        let _ = tx.send(
+          all
+            .iter()
+            .map(|x| match x {
+              Ok(v) => format!("{}", v.int()),
+              Err(e) => format!("e{}", e),
+            })
+            .collect::<Vec<_>>()
+            .join(","),
+        );
+      });
+    }
+    Conv::Status => {
+      name = "complete_status";
+      let (o, status) = subj.clone().complete_status();
+      o.actual_subscribe(Probe::new(1, &Log::new()));
+      std::thread::spawn(move || {
+        CompleteStatus::wait_for_end(status.clone());
+        let _ = tx.send(format!("closed={} completed={} error={}", status.is_closed(), status.is_completed(), status.error_occur()));
+      });
+    }
+  }
+  jitter(r);
+  for v in &items {
+    subj.next(v.clone());
+    jitter(r);
+  }
+  if error {
+    subj.clone().error(7)
+  } else {
+    subj.clone().complete()
+  }
+  // the source has terminated (the call returned): the waiter must come back
+  let got = rx.recv_timeout(Duration::from_secs(20));
+  crate::conc::set_mode(prev);
+  let cls = if error { if n_items == 0 { "error-only" } else { "items-then-error" } } else { "complete" };
+  let locus = format!("{}[{}][two-threads]", name, cls);
+  match got {
+    Err(_) => Some((
+      "waiter_never_returned".into(),
+      locus,
+      json!({"why": format!("the producer emitted {} items and its {} call returned; the waiting thread was still blocked 20 s later", n_items, if error { "error()" } else { "complete()" })}),
+      true,
+    )),
+    Ok(res) => {
+      let want: Vec<String> = match conv {
+        Conv::Future => match (error, n_items) {
+          (false, 0) => vec!["empty".into()],
+          (false, 1) => vec!["value:10".into()],
+          (false, _) => vec!["multiple".into()],
+          (true, 0) => vec!["error:7".into()],
+          (true, _) => vec!["error:7".into(), "multiple".into()],
+        },
+        Conv::Stream => {
+          let mut v: Vec<String> = items.iter().map(|x| format!("{}", x.int())).collect();
+          if error {
+            v.push("e7".into());
+          }
+          vec![v.join(",")]
+        }
+        Conv::Status => vec![format!("closed=true completed={} error={}", !error, error)],
+      };
+      if want.contains(&res) {
+        None
+      } else {
+        Some(("wrong_outcome".into(), locus, json!({"observed": res, "expected_one_of": want}), false))
+      }
+    }
+  }
 }
